@@ -154,7 +154,7 @@ class ListT(Type):
             k = z3.Int(fresh_name("k"))
             pairs = []
             for leaf, arr in zip(leaves_of(tmpl), lst.arrs):
-                if z3.is_expr(leaf) and arr is not None and not isinstance(arr, str):
+                if z3.is_expr(leaf) and arr is not None and not isinstance(arr, (str, bool, int, float)):
                     pairs.append((leaf, z3.Select(arr, k)))
             for f in twf:
                 wf.append(z3.ForAll([k], z3.substitute(z3.And(f) if not z3.is_expr(f) else f, *pairs)))
@@ -256,3 +256,30 @@ class PyDictT(Type):
 def idiv(x, k):
     """floor division by a positive constant for python ints and z3 ints alike (for result-shape lambdas)"""
     return x // k if isinstance(x, int) else x / k
+
+
+class LazyClass:
+    """a repository class named by (file, name); resolved by the executor when called"""
+
+    def __init__(self, file, name):
+        self.file, self.name = file, name
+
+    def leaves(self):
+        return []
+
+    def rebuild(self, leaves):
+        return self
+
+    def sig(self):
+        return ("LazyClass", self.name)
+
+
+class ClassT(Type):
+    def __init__(self, file, name):
+        self.file, self.name = file, name
+
+    def fresh(self, name):
+        return LazyClass(self.file, self.name), []
+
+    def __repr__(self):
+        return f"class {self.name}"
